@@ -28,7 +28,7 @@ abbrev Index := List (Str × List ClassId)
 
 /-- the shared state with `xsi_cache` as a reference into a heap of dict objects -/
 structure CState where
-  cache : List (ClassId × Meta)
+  cache : List ((ClassId × Option Str) × Meta)
   /-- every dict object that was ever assigned to `self.xsi_cache`, by object number -/
   heap : List Index
   /-- `self.xsi_cache` -/
@@ -84,10 +84,10 @@ inductive Goal
 inductive TState
   /-- `if clazz not in self.cache` -/
   | bCheck (c : ClassId) (p : Option Str)
-  /-- the meta has been built (thread-local); `self.cache[clazz] = meta` is pending -/
-  | bWrite (c : ClassId) (m : Meta)
-  /-- `return self.cache[clazz]` -/
-  | bRead (c : ClassId)
+  /-- the meta has been built (thread-local); `self.cache[key] = meta` is pending -/
+  | bWrite (c : ClassId) (p : Option Str) (m : Meta)
+  /-- `return self.cache[key]` -/
+  | bRead (c : ClassId) (p : Option Str)
   /-- `if len(sys.modules) == self.sys_modules: return` -/
   | xCheck (g : Goal)
   /-- thread-local: the next binding class of `todo` goes into the local index `acc` -/
@@ -148,15 +148,15 @@ def CState.absorb (s : CState) (st : State) : CState :=
 /-- perform the pending operation, then run to the next one -/
 def stepT (U : Universe) (w : World) (s : CState) : TState → CState × TState
   | .bCheck c p =>
-    match s.cache.lookup c with
-    | some _ => (s, .bRead c)
+    match s.cache.lookup (c, p) with
+    | some _ => (s, .bRead c p)
     | none =>
       match pureBuild U c p with
-      | .ok m => (s, .bWrite c m)
+      | .ok m => (s, .bWrite c p m)
       | .error e => (s, .done (.raised e))
-  | .bWrite c m => ({ s with cache := dictSet s.cache c m }, .bRead c)
-  | .bRead c =>
-    match s.cache.lookup c with
+  | .bWrite c p m => ({ s with cache := dictSet s.cache (c, p) m }, .bRead c p)
+  | .bRead c p =>
+    match s.cache.lookup (c, p) with
     | some m => (s, .done (.gotMeta m))
     | none => (s, .done (.raised .index))
   | .xCheck g =>
@@ -220,8 +220,8 @@ def runSched (U : Universe) (w : World) : Sys → List Nat → Sys
 /-- the thread is inside `XmlContext.build` -/
 def TState.isB : TState → Bool
   | .bCheck _ _ => true
-  | .bWrite _ _ => true
-  | .bRead _ => true
+  | .bWrite _ _ _ => true
+  | .bRead _ _ => true
   | _ => false
 
 /-- the thread is inside `build_xsi_cache` / `find_types` -/
@@ -251,8 +251,8 @@ def TState.isDone : TState → Bool
 of entries of any published dict) -/
 def TState.remaining (n m : Nat) : TState → Nat
   | .bCheck _ _ => 3
-  | .bWrite _ _ => 2
-  | .bRead _ => 1
+  | .bWrite _ _ _ => 2
+  | .bRead _ _ => 1
   | .xCheck _ => n + 6 + m
   | .xLocal _ todo _ => todo.length + 5 + m
   | .xPublish _ _ => 4 + m
@@ -283,21 +283,6 @@ def Sys.results (sys : Sys) : List (Option Out) :=
     match th.st with
     | .done o => some o
     | _ => none
-
-/-- the requests of the build threads -/
-def progUses : List Prog → List Use
-  | [] => []
-  | .build c p :: rest => (c, p) :: progUses rest
-  | _ :: rest => progUses rest
-
-/-- the requests of build *and* scan threads (a scan builds every indexed class
-with `parent_ns=None`) -/
-def progUsesAll (U : Universe) (w : World) : List Prog → List Use
-  | [] => []
-  | .build c p :: rest => (c, p) :: progUsesAll U w rest
-  | .scan _ :: rest =>
-    ((indexedClasses (pureIndex U w.loaded)).map fun c => (c, none)) ++ progUsesAll U w rest
-  | _ :: rest => progUsesAll U w rest
 
 /-- no thread runs `find_type_by_fields` -/
 def noScan (progs : List Prog) : Prop := ∀ p ∈ progs, ∀ names, p ≠ Prog.scan names
